@@ -125,6 +125,19 @@ pub fn chasers() -> Vec<Chaser> {
         c.reach_loops = 32;
         v.push(c);
     }
+    // 32 loops open, then a FOR over one of the 32 variables again (by GOTO): that replaces a loop, it does not add one
+    for which in [0usize, 15, 31] {
+        let mut lines = vec![];
+        for i in 0..32 {
+            lines.push(format!("{} FOR V{} = 1 TO 1", 10 + i, i));
+        }
+        lines.push(format!("900 C = C + 1 : IF C < 4 THEN GOTO {}", 10 + which));
+        lines.push("910 PRINT \"in\"; C".into());
+        let mut c = ch("for-32-reentered", &[], "RUN", None);
+        c.lines = lines;
+        c.reach_loops = 32;
+        v.push(c);
+    }
     let mut c = ch("for-reentered-by-goto", &["10 FOR I = 1 TO 3", "20 C = C + 1 : IF C < 5000 THEN 10", "30 PRINT C"], "RUN", None);
     c.max_loops_allowed = 1;
     c.reach_loops = 1;
@@ -305,7 +318,7 @@ fn run_case(ctx: &Ctx, index: u64, rep: &mut Report) {
 fn finalize(_tier: Tier, rep: &mut Report) -> Finalize {
     Finalize {
         rule: "sessions: hostile G-hist histories (program entry, runs, breaks, replies, immediate statements, edits, NEW, arbitrary text and boundary numerals), invariants S1-S4 (<= 32 frames, <= 32 loops with distinct variables, array cells == product of dimensions <= 10000, value kinds match name suffixes for variables, cells and parameters) checked through the snapshot hook after EVERY host call, on the monitor and the ship build. \
-               chasers: a catalogue of cap-chasing programs with predicted outcome (GOSUB / FN recursion to 32 and 33 frames, 32 and 33 nested FORs, FOR re-entered by GOTO 5000 times, inner loops abandoned 5000 times, DIM products around 10000 cells in 1-3 dimensions, bounds up to 2^64 and products that overflow 64 bits, implicit arrays with 1-19 subscripts, every write path with the wrong kind); the outcome must be the predicted one and the interpreter must still run PRINT 1. \
+               chasers: a catalogue of cap-chasing programs with predicted outcome (GOSUB / FN recursion to 32 and 33 frames, 32 and 33 nested FORs, a FOR over one of 32 open loops re-entered, FOR re-entered by GOTO 5000 times, inner loops abandoned 5000 times, DIM products around 10000 cells in 1-3 dimensions, bounds up to 2^64 and products that overflow 64 bits, implicit arrays with 1-19 subscripts, every write path with the wrong kind); the outcome must be the predicted one and the interpreter must still run PRINT 1. \
                Non-trivial: a session with >= 100 host calls, or a chaser (all are). Distinct by hash of history / chaser + build profile.".into(),
         floors: vec![
             ("session.calls".into(), 500_000),
